@@ -8,9 +8,9 @@ Topological orders (C10 topological-order part, C13 topological-order part), edg
                             every directed path respects every topological order; orders exist iff the graph is acyclic;
 * `kahn_lag_sorted`         lexicographic Kahn keyed by lag succeeds on an acyclic graph whose lags never decrease along
                             edges, and its result is a linear extension with non-decreasing lags;
-* `allTimeTopo_iff`, `allTimeTopo_eq`, `allTimeTopo_nil`, `allTimeTopo_empty_defect`
-                            the code's filter of all orders is exactly the time-sorted linear extensions, except that the
-                            empty order is always dropped (DESIGN.md section 7, D14).
+* `allTimeTopo_iff`, `allTimeTopo_eq`, `allTimeTopo_nil`, `allTimeTopo_ne_nil`
+                            the code's filter of all orders is exactly the time-sorted linear extensions, for every node
+                            list (the empty graph gives `[[]]`: the code after the repair of D14, DESIGN.md section 7).
 -/
 import CG.Model.Topo
 set_option linter.unusedSectionVars false
@@ -413,67 +413,46 @@ theorem allTopo_ne_nil_iff (E : List (α × α)) (nodes : List α) (hnd : nodes.
 
 /-! ### the `return_all` filter of the time-series class -/
 
-/-- exact content of the code's filter, for every node list: the time-sorted linear extensions **that are
-    non-empty** (the empty list is the "not sorted" sentinel of `_get_time_topological_order`) -/
-theorem allTimeTopo_iff (E : List (α × α)) (key : α → Int) (nodes : List α) (hnd : nodes.Nodup) (o : List α) :
-    o ∈ allTimeTopo E key nodes ↔ LinExt E nodes o ∧ lagsSorted key o = true ∧ o ≠ [] := by
+/-- the code's loop over all orders is a plain filter by time-sortedness (no hypothesis) -/
+theorem allTimeTopo_eq (E : List (α × α)) (key : α → Int) (nodes : List α) :
+    allTimeTopo E key nodes = (allTopo E nodes).filter (lagsSorted key) := by
   unfold allTimeTopo timeFilter
-  simp only [List.mem_filter, List.mem_map, decide_eq_true_eq]
-  constructor
-  · rintro ⟨⟨o', ho', hto⟩, hlen⟩
-    unfold timeOrder at hto
-    by_cases hs : lagsSorted key o' = true
-    · simp only [hs, if_true] at hto
-      subst hto
-      refine ⟨(allTopo_iff E nodes hnd _).mp ho', hs, ?_⟩
-      intro h; rw [h] at hlen; simp at hlen
-    · simp only [hs] at hto
-      subst hto; simp at hlen
-  · rintro ⟨hl, hs, hne⟩
-    refine ⟨⟨o, (allTopo_iff E nodes hnd o).mpr hl, by simp [timeOrder, hs]⟩, ?_⟩
-    cases o with
-    | nil => exact absurd rfl hne
-    | cons _ _ => simp
+  generalize allTopo E nodes = orders
+  induction orders with
+  | nil => rfl
+  | cons o rest ih =>
+    rw [List.filterMap_cons, List.filter_cons, ih]
+    unfold timeOrder
+    cases lagsSorted key o <;> simp
 
-/-- **`return_all` with time ordering** on a non-empty graph: exactly the linear extensions with non-decreasing lags. -/
-theorem allTimeTopo_eq (E : List (α × α)) (key : α → Int) (nodes : List α) (hne : nodes ≠ []) (hnd : nodes.Nodup)
-    (o : List α) : o ∈ allTimeTopo E key nodes ↔ LinExt E nodes o ∧ lagsSorted key o = true := by
-  rw [allTimeTopo_iff E key nodes hnd]
-  constructor
-  · exact fun h => ⟨h.1, h.2.1⟩
-  · rintro ⟨h1, h2⟩
-    refine ⟨h1, h2, ?_⟩
-    intro h; subst h
-    exact hne (List.Perm.nil_eq h1.1).symm
+/-- **`return_all` with time ordering**: exactly the linear extensions with non-decreasing lags, for every node
+    list including the empty one (the repaired sentinel `None` no longer swallows the empty order, D14). -/
+theorem allTimeTopo_iff (E : List (α × α)) (key : α → Int) (nodes : List α) (hnd : nodes.Nodup) (o : List α) :
+    o ∈ allTimeTopo E key nodes ↔ LinExt E nodes o ∧ lagsSorted key o = true := by
+  rw [allTimeTopo_eq, List.mem_filter, allTopo_iff E nodes hnd]
 
 /-- the same with the sortedness side condition in `Prop` form -/
-theorem allTimeTopo_eq' (E : List (α × α)) (key : α → Int) (nodes : List α) (hne : nodes ≠ []) (hnd : nodes.Nodup)
-    (o : List α) : o ∈ allTimeTopo E key nodes ↔ LinExt E nodes o ∧ LagsSorted key o := by
-  rw [allTimeTopo_eq E key nodes hne hnd, lagsSorted_iff]
+theorem allTimeTopo_iff' (E : List (α × α)) (key : α → Int) (nodes : List α) (hnd : nodes.Nodup) (o : List α) :
+    o ∈ allTimeTopo E key nodes ↔ LinExt E nodes o ∧ LagsSorted key o := by
+  rw [allTimeTopo_iff E key nodes hnd, lagsSorted_iff]
 
 example : allTimeTopo [("Y1", "Y"), ("X", "Y")] (fun s => if s = "Y1" then -1 else 0) ["X", "Y", "Y1"]
-    = [["Y1", "X", "Y"]] ∧ (allTopo [("Y1", "Y"), ("X", "Y")] ["X", "Y", "Y1"]).length = 2 := by decide
+    = [["Y1", "X", "Y"]] ∧ (allTopo [("Y1", "Y"), ("X", "Y")] ["X", "Y", "Y1"]).length = 2 ∧
+    ["X", "Y", "Y1"].Nodup := by decide
 
-/-- the empty graph: the code returns no order at all … -/
-theorem allTimeTopo_nil (E : List (α × α)) (key : α → Int) : allTimeTopo E key [] = [] := by
+/-- the empty graph has exactly one time-sorted topological order, the empty one (as in the base class) -/
+theorem allTimeTopo_nil (E : List (α × α)) (key : α → Int) : allTimeTopo E key ([] : List α) = [[]] := by
   simp [allTimeTopo, allTopo, allTopoAux, timeFilter, timeOrder, lagsSorted]
 
-/-- … although the base class returns `[[]]` … -/
 theorem allTopo_nil (E : List (α × α)) : allTopo E ([] : List α) = [[]] := by
   simp [allTopo, allTopoAux]
 
-/-- … and the empty order *is* a time-sorted linear extension of the empty graph: the specified set is `{[]}`.
-    This is defect D14 (DESIGN.md section 7), stated as a theorem about the faithful model. -/
-theorem allTimeTopo_empty_defect (E : List (α × α)) (key : α → Int) :
-    LinExt E [] ([] : List α) ∧ lagsSorted key ([] : List α) = true ∧ ([] : List α) ∉ allTimeTopo E key [] := by
-  refine ⟨⟨List.Perm.refl _, by simp⟩, rfl, ?_⟩
-  rw [allTimeTopo_nil]; simp
-
-/-- hence the unrestricted form of `allTimeTopo_eq` is false exactly at the empty node list -/
-theorem allTimeTopo_eq_fails_on_empty (E : List (α × α)) (key : α → Int) :
-    ¬ (∀ o : List α, o ∈ allTimeTopo E key [] ↔ LinExt E [] o ∧ lagsSorted key o = true) := by
+/-- on an acyclic graph whose lags never decrease along edges the returned set is never empty -/
+theorem allTimeTopo_ne_nil (E : List (α × α)) (key : α → Int) (nodes : List α) (hac : Acyclic (Rel E))
+    (hmono : ∀ a b, Rel E a b → key a ≤ key b) (hnd : nodes.Nodup) : allTimeTopo E key nodes ≠ [] := by
+  obtain ⟨o, _, h1, h2⟩ := kahn_lag_sorted E key nodes hac hmono hnd
   intro h
-  have := allTimeTopo_empty_defect E key
-  exact this.2.2 ((h []).mpr ⟨this.1, this.2.1⟩)
+  have := (allTimeTopo_iff E key nodes hnd o).mpr ⟨h1, h2⟩
+  rw [h] at this; simp at this
 
 end CG.TopoThm
